@@ -11,7 +11,7 @@ def chunk16 : Nat → Bytes → List Bytes
 def parseScript (s : String) : Option (List Outcome) :=
   if s == "-" then some [] else
   (s.splitOn ",").mapM fun item =>
-    if item == "L" then some Outcome.lost
+    if item == "L" || item == "Lx" then some Outcome.lost    -- `Lx`: lost, and the caller's context ends during the wait
     else if item.startsWith "R:" then (parseHex (item.drop 2).toString).map Outcome.reply
     else if item.startsWith "R!:" then (parseHex (item.drop 3).toString).map Outcome.reply   -- … and the context ends: the script ends here
     else none
@@ -79,7 +79,7 @@ def evalSendSeq (args : List String) : String :=
   match args with
   | [_auth, integ, k1, k2, lid, rid, inb, ent, scripts] =>
     match [integ, lid, rid, inb].mapM String.toNat?, parseHex k1, parseHex k2, parseHex ent,
-          (scripts.splitOn "|").mapM (fun s => parseScript (s.replace "W" "L")) with
+          (scripts.splitOn "|").mapM (fun s => parseScript ((s.replace "Lx" "L").replace "W" "L")) with
     | some [integ, lid, rid, inb], some k1, some k2, some ent, some scripts =>
       let c : Cmd := { fn := 0x06, cmd := 0x01 }
       let rec go (ss : List (List Outcome)) (s : Sess) (ivs : List Bytes) (sent : List Bytes) (res : List String) :
